@@ -394,9 +394,28 @@ def _ifmin(args, want_min):
         return (builtins.min if want_min else builtins.max)(vals)
     _hit("min/max -> If-term")
     cur = core.lift(vals[0])
+    c = core.CTX
+
+    def implied(cond):
+        # cheap static pruning: linear relaxation of (path condition and not cond)
+        try:
+            neg = z3.Not(cond)
+            return core.relaxation_unsat(c._slice(core.vars_of(neg), 2) + [neg])
+        except z3.Z3Exception:
+            return False
     for v in vals[1:]:
         t = core.lift(v)
-        cur = z3.If(cur <= t, cur, t) if want_min else z3.If(cur >= t, cur, t)
+        if z3.is_rational_value(cur) and z3.is_rational_value(t):
+            a, b = core._num(cur), core._num(t)
+            cur = (cur if a <= b else t) if want_min else (cur if a >= b else t)
+            continue
+        le = cur <= t
+        if implied(le):
+            cur = cur if want_min else t
+        elif implied(t <= cur):
+            cur = t if want_min else cur
+        else:
+            cur = z3.If(le, cur, t) if want_min else z3.If(cur >= t, cur, t)
     return SymReal(cur)
 
 
